@@ -55,6 +55,10 @@ pub const CRASH_PROPS: &[PropInfo] = &[
 ];
 
 pub const STORE_PROPS: &[PropInfo] = &[
+    PropInfo { id: "C10", engine: Engine::Btree, level: "exploration", quick_runs: 1500, thorough_runs: 60000, watchdog_s: 40,
+        rule: "one case = one sequence of 10-400 insert / upsert / update / remove / lookup / scan / checkpoint operations on a B+tree over a real pager (page 4-16 KiB, min keys 3-6, siblings 1-3, cache 8 pages to unbounded; u64 / i64 / fixed-width text keys; ascending, descending, random and delete-everything orders; one payload size per tree), compared with a BTreeMap after every operation and audited structurally after every mutation; non-trivial = the tree split at least once (depth >= 1); distinct = distinct fingerprints of the operation log" },
+    PropInfo { id: "C11", engine: Engine::Btree, level: "exploration", quick_runs: 1500, thorough_runs: 60000, watchdog_s: 40,
+        rule: "same runs as C10 with the page-ownership audit as the reported oracle: after every mutation each page 1..total_pages is exactly one of tree node / overflow link / free-list member, the free list is acyclic with the recorded head and tail, and the file does not grow while the free list is non-empty; non-trivial = pages were freed and later taken from the free list; distinct = distinct fingerprints of the operation log" },
     PropInfo { id: "C17", engine: Engine::Wal, level: "fault_enumeration", quick_runs: 2500, thorough_runs: 120000, watchdog_s: 30,
         rule: "one case = one sequence of appends (payload sizes from empty to one block, all record kinds) interleaved with force / close+reopen / truncate / reads with read-ahead 1-6, checked against a vector model after every read, then a crash at EVERY prefix of the recorded file mutations (reopen + read back); non-trivial = the log grew beyond its first block or was truncated or reopened, and at least one non-empty read was compared; distinct = distinct fingerprints of (operation log, I/O sequence)" },
 ];
